@@ -70,7 +70,7 @@ theorem nodup_map_filter {α β : Type} (f : α → β) (p : α → Bool) (l : L
 
 theorem lwf_minus {L : Ledger} (hl : LWF L) (P : Nat → Bool) (Q : OutPoint → Bool) : LWF (minus L P Q) := by
   have hsub : ∀ p, p ∈ known (minus L P Q) → p ∈ known L := fun p => known_minus_sub
-  refine ⟨hl.heights, ?_, ?_, ?_, ?_, hl.noDouble, ?_, ?_, ?_, ?_, ?_⟩
+  refine ⟨hl.heights, ?_, ?_, ?_, ?_, hl.noDouble, ?_, ?_, ?_, ?_⟩
   · have : known (minus L P Q) = (known L).filter (fun p => p.2.isSome || !P p.1.hash) := by
       simp only [known, minus, List.filter_append, List.filter_map, chainTxs]
       congr 1
@@ -90,9 +90,12 @@ theorem lwf_minus {L : Ledger} (hl : LWF L) (P : Nat → Bool) (Q : OutPoint →
   · intro p hp i hi q hq e; exact hl.parents p hp i hi q (hsub q hq) e
   · obtain ⟨rk, hrk⟩ := hl.rank
     exact ⟨rk, fun p hp i hi q hq e => hrk p (hsub p hp) i hi q (hsub q hq) e⟩
-  · intro t ht i hi; exact hl.poolNoChainConflict t (mem_pool_minus.mp ht).1 i hi
   · intro p hp i hi q hq e; exact hl.validRefs p (hsub p hp) i hi q (hsub q hq) e
   · intro p hp; exact hl.outsBound p (hsub p hp)
+
+theorem noConflict_minus {L : Ledger} (hn : NoConflict L) (P : Nat → Bool) (Q : OutPoint → Bool) :
+    NoConflict (minus L P Q) :=
+  fun t ht i hi => hn t (mem_pool_minus.mp ht).1 i hi
 
 theorem minus_minus (L : Ledger) (P P' : Nat → Bool) (Q Q' : OutPoint → Bool) :
     minus (minus L P Q) P' Q' = minus L (fun h => P h || P' h) (fun o => Q o || Q' o) := by
